@@ -51,10 +51,56 @@ func wireVersion(m []byte) int {
 	return int(bin[0])<<8 | int(bin[1])
 }
 
+// Versions offered by a query message as the protocol document reads it: "?OTR", an optional '?'
+// (version 1), an optional 'v' followed by the version characters up to the FIRST question mark;
+// everything behind that question mark is text for the human and offers nothing. Bit 1<<v for v in
+// 1..3; other version characters are unknown versions. (A list that is not closed at all is read
+// to the end of the message, which is what the library has always done.)
+func specQueryOffer(m []byte) int {
+	if !bytes.HasPrefix(m, []byte("?OTR")) {
+		return 0
+	}
+	rest := m[4:]
+	mask := 0
+	if len(rest) > 0 && rest[0] == '?' {
+		mask |= 1 << 1
+		rest = rest[1:]
+	}
+	if len(rest) > 0 && rest[0] == 'v' {
+		for _, c := range rest[1:] {
+			if c == '?' {
+				break
+			}
+			if c == '2' || c == '3' {
+				mask |= 1 << uint(c-'0')
+			}
+		}
+	}
+	return mask
+}
+
+// texts for the human behind a query: version digits in them, question marks behind those
+var queryTrailers = []string{
+	"Do you have OTR 3 yet? It is much better.",
+	"Is version 2 fine with you? Mine is old.",
+	"OTR 2 or 3? See https://otr.cypherpunks.ca/ for a plugin",
+	"3?",
+	"2?",
+	"v23?",
+	"I like number 3",
+	"call me at 322-2323, ok?",
+	"hi there",
+	"what?",
+}
+
 func (g *gen) policyScenario(w *world, pa, pb int, form int) {
 	w.parties = map[string]*party{}
 	w.dead = false
-	a := w.newParty(partyCfg{policies: pa, keyIdx: 0})
+	friendly := ""
+	if form == 1 && g.r.Intn(4) != 0 {
+		friendly = queryTrailers[g.r.Intn(len(queryTrailers))]
+	}
+	a := w.newParty(partyCfg{policies: pa, keyIdx: 0, friendly: friendly})
 	b := w.newParty(partyCfg{policies: pb, keyIdx: 1})
 	l := &link{w: w, a: a, b: b}
 	text := g.cleanText()
@@ -78,6 +124,18 @@ func (g *gen) policyScenario(w *world, pa, pb int, form int) {
 			}
 		}
 	}
+	// set once an offer has gone to B: B speaks no version that was not in it
+	offerMask, offerDesc := -1, ""
+	checkOffered := func(ms []otr3.ValidMessage) {
+		if offerMask < 0 {
+			return
+		}
+		for _, m := range reassembleAll(ms) {
+			if v := wireVersion(m); v != 0 && (v > 3 || offerMask&(1<<uint(v)) == 0) {
+				olog.viol("C16", "version-not-offered", fmt.Sprintf("offer %s answered by policy %d with a version %d message", offerDesc, pb, v))
+			}
+		}
+	}
 	run := func() {
 		for i := 0; i < 40 && (len(l.qab) > 0 || len(l.qba) > 0) && !w.dead; i++ {
 			if len(l.qab) > 0 {
@@ -85,6 +143,7 @@ func (g *gen) policyScenario(w *world, pa, pb int, form int) {
 				l.qab = l.qab[1:]
 				_, ts, _, _ := w.recv(b, m)
 				checkWire(b, pb, ts)
+				checkOffered(ts)
 				l.enqueue(b, ts)
 				versionAllowed(b, pb, "after receive")
 			}
@@ -135,17 +194,22 @@ func (g *gen) policyScenario(w *world, pa, pb int, form int) {
 			}
 		}
 	case 1: // explicit query
-		l.enqueue(a, []otr3.ValidMessage{w.query(a)})
+		q := w.query(a)
+		offerMask, offerDesc = specQueryOffer(q), fmt.Sprintf("%q", q)
+		if pa&6 != 0 && offerMask != pa&6<<1 {
+			olog.viol("C16", "query-offers-other-versions", fmt.Sprintf("policy %d wrote the query %q, which offers the versions in mask %d", pa, q, offerMask))
+		}
+		l.enqueue(a, []otr3.ValidMessage{q})
 		run()
 		mc := maxCommon(pa, pb)
 		ea, eb := a.c.IsEncrypted(), b.c.IsEncrypted()
 		if mc != 0 {
 			va, vb := otr3.VerifSnapshot(a.c).Version, otr3.VerifSnapshot(b.c).Version
 			if !ea || !eb || va != mc || vb != mc {
-				olog.viol("C16", "wrong-version-negotiated", fmt.Sprintf("policies %d/%d share version %d but ended encA=%v encB=%v versions %d/%d", pa, pb, mc, ea, eb, va, vb))
+				olog.viol("C16", "wrong-version-negotiated", fmt.Sprintf("query %q, policies %d/%d share version %d but ended encA=%v encB=%v versions %d/%d", q, pa, pb, mc, ea, eb, va, vb))
 			}
 		} else if ea || eb {
-			olog.viol("C16", "encrypted-without-common-version", fmt.Sprintf("policies %d/%d", pa, pb))
+			olog.viol("C16", "encrypted-without-common-version", fmt.Sprintf("query %q, policies %d/%d", q, pa, pb))
 		}
 	case 3: // a tagged plaintext written by somebody else: version tags in any order, unknown tags among them
 		hdr := " \t  \t\t\t\t \t \t \t  "
@@ -153,7 +217,37 @@ func (g *gen) policyScenario(w *world, pa, pb int, form int) {
 		order := []int{1, 2, 3, 9, 8}
 		g.r.Shuffle(len(order), func(i, j int) { order[i], order[j] = order[j], order[i] })
 		order = order[:1+g.r.Intn(len(order))]
-		m := append(append([]byte{}, text...), []byte(hdr)...)
+		// half of the time exactly what the protocol document prescribes to a sender: the base, then
+		// the version 1 indication if version 1 is offered ("must come before all other whitespace
+		// tags"), then version 2, then version 3 - what libotr writes
+		specOrder := g.r.Intn(2) == 0
+		if specOrder {
+			order = order[:0]
+			if g.r.Intn(3) != 0 {
+				order = append(order, 1)
+			}
+			k := g.r.Intn(4)
+			if len(order) == 0 && k == 0 {
+				k = 1 + g.r.Intn(3)
+			}
+			if k&1 != 0 {
+				order = append(order, 2)
+			}
+			if k&2 != 0 {
+				order = append(order, 3)
+			}
+		}
+		// "this tag may occur anywhere in the message": for the prescribed tags also between two
+		// pieces of the text that end and begin with a visible character
+		head, tail := text, []byte(nil)
+		if specOrder && g.r.Intn(3) == 0 {
+			cut := 1 + g.r.Intn(len(text)-1)
+			head, tail = text[:cut], text[cut:]
+			if ws := func(c byte) bool { return c == ' ' || c == '\t' }; ws(head[len(head)-1]) || ws(tail[0]) {
+				head, tail = text, nil
+			}
+		}
+		m := append(append([]byte{}, head...), []byte(hdr)...)
 		offered := 0
 		for _, v := range order {
 			m = append(m, []byte(tags[v])...)
@@ -161,6 +255,7 @@ func (g *gen) policyScenario(w *world, pa, pb int, form int) {
 				offered |= 1 << uint(v)
 			}
 		}
+		m = append(m, tail...)
 		plain, ts, _, _ := w.recv(b, m)
 		checkWire(b, pb, ts)
 		versionAllowed(b, pb, fmt.Sprintf("tagged plaintext with tags %v", order))
@@ -185,18 +280,47 @@ func (g *gen) policyScenario(w *world, pa, pb int, form int) {
 		if got != want {
 			olog.viol("C16", "wrong-version-negotiated", fmt.Sprintf("policy %d, tagged plaintext offering tags %v: answered with a version %d message, expected version %d (0 = none)", pb, order, got, want))
 		}
-	default: // odd offer forms straight into B
-		offers := []string{"?OTRv4?", "?OTR?v2?", "?OTRv23x?", "?OTR?", "?OTRv?", "?OTRv32?", "?OTR?v?", "?OTRv9923?", "?OTRv2", "?OTRv3? hi"}
+		if specOrder && pb&6 != 0 {
+			// a message an independent implementation of the protocol document writes: read correctly
+			olog.ok("C10")
+			if !bytes.Equal(plain, text) {
+				olog.viol("C10", "spec-whitespace-tag-misread", fmt.Sprintf("policy %d: message %q (text %q, %d bytes of it behind the tag; tag = base followed by the indications of versions %v in the prescribed order) was delivered as %q", pb, m, text, len(tail), order, plain))
+			}
+			if got != want {
+				olog.viol("C10", "spec-whitespace-tag-misread", fmt.Sprintf("policy %d: message %q (tag = base followed by the indications of versions %v in the prescribed order) was answered with a version %d D-H Commit, expected version %d (0 = none)", pb, m, order, got, want))
+			}
+		}
+	default: // odd offer forms straight into B, with and without a text for the human behind them
+		offers := []string{"?OTRv4?", "?OTR?v2?", "?OTRv23x?", "?OTR?", "?OTRv?", "?OTRv32?", "?OTR?v?", "?OTRv9923?", "?OTRv2", "?OTRv3? hi",
+			"?OTRv2?", "?OTRv3?", "?OTR?v3?", "?OTRv23?", "?OTR?v23?", "?OTRvx?", "?OTRv2?", "?OTRv3?"}
 		m := []byte(offers[g.r.Intn(len(offers))])
+		if m[len(m)-1] == '?' && g.r.Intn(3) != 0 {
+			if g.r.Intn(4) != 0 {
+				m = append(m, ' ')
+			}
+			m = append(m, queryTrailers[g.r.Intn(len(queryTrailers))]...)
+		}
+		offerMask, offerDesc = specQueryOffer(m), fmt.Sprintf("%q", m)
 		_, ts, _, _ := w.recv(b, m)
 		checkWire(b, pb, ts)
+		checkOffered(ts)
 		versionAllowed(b, pb, fmt.Sprintf("offer %q", m))
-		for _, t := range reassembleAll(ts) {
-			if v := wireVersion(t); v != 0 {
-				offered := bytes.Contains(m, []byte{byte('0' + v)})
-				if !offered {
-					olog.viol("C16", "version-not-offered", fmt.Sprintf("offer %q answered with a version %d message", m, v))
+		if pb&6 != 0 {
+			want := 0
+			switch {
+			case pb&4 != 0 && offerMask&8 != 0:
+				want = 3
+			case pb&2 != 0 && offerMask&4 != 0:
+				want = 2
+			}
+			got := 0
+			for _, t := range reassembleAll(ts) {
+				if v := wireVersion(t); v != 0 {
+					got = v
 				}
+			}
+			if got != want {
+				olog.viol("C16", "wrong-version-negotiated", fmt.Sprintf("policy %d, offer %q: answered with a version %d message, expected version %d (0 = none)", pb, m, got, want))
 			}
 		}
 	}
